@@ -6,7 +6,7 @@ the "Type parsers" of `parser.rs` and of the type printer of `format.rs`; lemmas
   fuel_suffices, fuel_monotone, fuel_irrelevant     the fuel that ties the recursive knot
   parseType_total, parseBaseType_total, typeAlias_total     (T1) totality + progress + located errors
   RoundTripStatement (full), roundtrip_partial             (T2) parse (print t ++ rest) = (t, rest)
-  roundtrip_refuted_on_head                                 the full statement is FALSE on HEAD (D3)
+  d3_dea6b02_only_rule_breaks_roundtrip                     the dea6b02-only printing rule breaks T2 (D3)
   d1_old_print_rule_breaks_roundtrip                        the pre-dea6b02 printing rule breaks T2
   PrintIdempotentStatement, print_idempotent_partial        (T3)
 -/
@@ -139,8 +139,9 @@ def RoundTripStatement : Prop :=
     parser's model reads the printed text back to exactly the same AST and stops exactly at `rest`.
     Missing cases (the full statement is `RoundTripStatement`): partial types, spreads and
     `'alias[...]` tuples, intersections, applied aliases `'t<…>`, `^N`, process types, module types,
-    `'`/`'<…>`, and references named `int`/`bin`/`ref` — for the last one the full statement is
-    false on HEAD, see `roundtrip_refuted_on_head`. -/
+    `'`/`'<…>`, and references named `int`/`bin`/`ref` (printed `<'int>` / `(<'int>)`; the two
+    repairs dea6b02 and b32cfa9 are needed for those: `d1_…`, `d3_…` below). For these the statement
+    is evaluated on generated ASTs of every constructor by the harness (search, not proof). -/
 theorem roundtrip_partial (t : Ty) (hw : WFType t) (hf : t.frag = true) (rest : Str)
     (hr : stopTd rest = true) : parseType (printTy t ++ rest) = .ok t rest := by
   have h := (knot_good t.lvT).td t hf hw (Nat.le_refl _) rest hr
@@ -191,21 +192,18 @@ theorem d1_old_print_rule_breaks_roundtrip :
       | .ok (.ident ['i', 'n', 't'] []) [] => true | _ => false) = true := by
   refine ⟨by decide +kernel, by simp, by decide +kernel, by decide +kernel⟩
 
-/-- **roundtrip_refuted_on_head** (defect D3, HEAD 0428746): the full statement is false — a
-    reference named like a primitive is printed `<'int>` also directly behind `#` / `-> `, where
-    `function_input_type` / `function_output_type` have no `type_parameter` alternative. The AST is
-    one the parser produces (from `#(<'int>) -> 'int`). -/
-theorem roundtrip_refuted_on_head : ¬ RoundTripStatement := by
-  intro H
-  have h := H (.func (.ident "int".toList []) (.prim .int)) (by decide +kernel) [] (by decide +kernel)
-  have e : (match parseType (printTy (.func (.ident "int".toList []) (.prim .int)) ++ []) with
-      | .err _ _ => true | _ => false) = true := by decide +kernel
-  rw [h] at e
-  simp at e
-
-example : (match parseType "#(<'int>) -> 'int".toList with
-    | .ok (.func (.ident ['i', 'n', 't'] []) (.prim .int)) [] => true | _ => false) = true := by
-  decide +kernel
+/-- **d3_dea6b02_only_rule_breaks_roundtrip** (defect D3, found with this model after dea6b02,
+    repaired by b32cfa9): with the dea6b02 rule alone a reference named like a primitive is printed
+    `<'int>` also directly behind `#` / `-> `, where `function_input_type` / `function_output_type`
+    have no `type_parameter` alternative — the text `#<'int> -> 'int` does not parse although the AST
+    is one the parser produces (from `#(<'int>) -> 'int`). With b32cfa9 (`render_type_atom` wraps
+    that reference in parentheses) the printed text is `#(<'int>) -> 'int` and reads back exactly. -/
+theorem d3_dea6b02_only_rule_breaks_roundtrip :
+    (match parseType "#<'int> -> 'int".toList with | .err _ _ => true | _ => false) = true ∧
+    printTy (.func (.ident "int".toList []) (.prim .int)) = "#(<'int>) -> 'int".toList ∧
+    (match parseType (printTy (.func (.ident "int".toList []) (.prim .int))) with
+      | .ok (.func (.ident ['i', 'n', 't'] []) (.prim .int)) [] => true | _ => false) = true := by
+  refine ⟨by decide +kernel, by decide +kernel, by decide +kernel⟩
 
 /-! ## (T3) print idempotence -/
 
